@@ -548,6 +548,22 @@ pub static OPS: &[OpDef] = &[
         let l2 = LineString::new(p2.0[..m].iter().map(|p| p.0).collect());
         o.f64(LineString::new(l1.0[..m].to_vec()).frechet_distance(&l2));
     }),
+    op!("closest_point_many", &["lattice", "tiles", "rects"], false, false, |i, o| {
+        // collections of (typically) more than 64 grid-aligned members, probed on the half grid: many probes are
+        // EXACTLY equidistant from two or four members that lie far apart in member order
+        let mls = MultiLineString::new(i.a.0.iter().map(|p| p.exterior().clone()).collect());
+        let gc = GeometryCollection::new_from(i.a.0.iter().cloned().map(Geometry::Polygon).collect::<Vec<_>>());
+        let k = ((i.a.0.len() as f64).sqrt() as usize).clamp(2, 16);
+        for y in 0..k {
+            for x in 0..k {
+                for probe in [Point::new(x as f64 + 0.8, y as f64 + 0.3), Point::new(x as f64 + 0.3, y as f64 + 0.8), Point::new(x as f64 + 0.8, y as f64 + 0.8)] {
+                    w_closest(o, &i.a.closest_point(&probe));
+                    w_closest(o, &mls.closest_point(&probe));
+                    w_closest(o, &gc.closest_point(&probe));
+                }
+            }
+        }
+    }),
     op!("distance", POLY_FAMS, false, false, |i, o| {
         let (p, q) = (first_poly(i), i.b.0.first().cloned().unwrap_or_else(|| first_poly(i)));
         o.f64(Euclidean.distance(&p, &q));
